@@ -35,9 +35,10 @@ type Plan struct {
 type StepFault struct {
 	Site   string `json:"site"`
 	Occ    int    `json:"occ"`
-	Action string `json:"action"` // "error" | "kill" | "closefault"
+	Action string `json:"action"` // "error" | "kill" | "closefault" | "gate"
 	Errno  string `json:"errno"`
 	Keep   int64  `json:"keep"` // closefault: bytes of the file that survive
+	Gate   string `json:"gate"` // gate: named pipe the process parks on until the simulator lets it go on
 }
 
 // ReaderPlan shapes the delivery of one input stream.
@@ -242,11 +243,39 @@ func (c *planController) fault(site string, occ int) *StepFault {
 	return nil
 }
 
+// gateWait parks the process at a step boundary: the open blocks until the
+// simulator opens the pipe for writing, the read until it closes it. What
+// the simulator does in between (run another yq process in the same
+// directories) is its decision; nothing is timed here.
+func (c *planController) gateWait(path string) {
+	c.flush()
+	fd, err := syscall.Open(path, syscall.O_RDONLY|syscall.O_CLOEXEC, 0)
+	if err != nil {
+		planFail("gate: " + err.Error())
+	}
+	var b [16]byte
+	for {
+		n, err := syscall.Read(fd, b[:])
+		if err == syscall.EINTR {
+			continue
+		}
+		if n <= 0 || err != nil {
+			break
+		}
+	}
+	_ = syscall.Close(fd)
+}
+
 func (c *planController) Step(site string, detail []string) error {
 	c.occ[site]++
 	occ := c.occ[site]
 	info := strings.Join(detail, " ")
 	f := c.fault(site, occ)
+	if f != nil && f.Action == "gate" {
+		c.emit("step", site, occ, "gate", info, true, true)
+		c.gateWait(f.Gate)
+		return nil
+	}
 	if f == nil || f.Action == "closefault" {
 		c.emit("step", site, occ, "pass", info, true, true)
 		return nil
@@ -276,6 +305,10 @@ func (c *planController) StepFile(site string, f *os.File) {
 		return
 	}
 	switch sf.Action {
+	case "gate":
+		c.emit("stepfile", site, occ, "gate", "", true, true)
+		c.gateWait(sf.Gate)
+		return
 	case "kill":
 		c.emit("stepfile", site, occ, "kill", "", true, true)
 		c.kill()
